@@ -34,6 +34,10 @@ LEVEL_TEXT = ("Solver-driven exhaustive enumeration of a bounded trace space (th
 
 def configs(tier):
     out = []
+    # call-pedigree: every individual's summaries come from its own slice of the padded pedigree trace (mixed ploidies), with and
+    # without a masked reference (relabelling of the sampler's allele indices)
+    for masked in (False, True):
+        out.append(dict(kind="prog-wiring", group="wiring", prog="call-pedigree", order=3, masked=masked))
     # posterior-level functionals with SYMBOLIC probabilities over a concrete genotype list (no tobytes on the probabilities)
     for P, A in (((3, 2), (2, 3)) if tier == "quick" else ((3, 2), (2, 3), (4, 2), (3, 3))):
         out.append(dict(kind="post", which="call", P=P, A=A))
@@ -68,6 +72,10 @@ def run_config(c, col):
     E.use_summaries(True)
     E.reset_modules()
     E.cfg.concrete_ints = True
+    if c["kind"] == "prog-wiring":
+        from checks import wiring
+
+        return wiring.run(c, col)
     E.cfg.concrete_floats = True
     import warnings
 
@@ -409,6 +417,10 @@ def replay(v):
     import warnings
 
     c = v["config"]
+    if c["kind"] == "prog-wiring":
+        from checks import wiring
+
+        return wiring.replay_real(v, wiring.run)
     w = v["witness"]
     warnings.simplefilter("ignore")
     if c["kind"] == "post":
